@@ -53,12 +53,88 @@ def run(ctx):
                        'and unlinked before its handler; registration refuses a timer whose index is not -1', floor=4)
     ctx.rule('R-C04e', 'the wait deadline is the heap root or zero: its only definitions are the zeroed local and '
                        'iv_get_soonest_timeout, which reads heap slot 1 under num_timers != 0', floor=3)
+    ctx.rule('R-C04f', 'repeated-deadline optimisation: the armed kernel timer is kept (wait without a deadline) only on the edge where the '
+                       'requested deadline is not earlier than the armed one; the result of arming is what the caller acts on', floor=3)
+    ctx.rule('R-C04g', 'millisecond conversion rounds up: for boundary values the converted timeout never under-reports the remaining time '
+                       '(no early wake-up spin, no truncation to 0 while time remains)', floor=6)
+    ctx.section(keep_armed)
+    ctx.section(rounding)
     ctx.section(expiry)
     ctx.section(lambda c: cmp_tables(c, 'R-C04a.cmp'))
     ctx.section(invalidate)
     ctx.section(rerun)
     ctx.section(once)
     ctx.section(deadline)
+
+
+def keep_armed(ctx, rid='R-C04f'):
+    prog = ctx.prog
+    f = prog.fn('iv_fd_timeout_check')
+    hd = holding(f)
+    cmpdef = [e for e in f.events() if e['ev'] == 'store' and strip(e.get('rhs', {})).get('k') == 'call' and strip(e['rhs']).get('callee') == 'timespec_cmp']
+    if not cmpdef:
+        raise AnalysisBroken('iv_fd_timeout_check: comparison with the armed deadline not found')
+    cv = canon(cmpdef[0]['lhs'])
+    args = [canon(a) for a in strip(cmpdef[0]['rhs'])['args']]
+    ctx.ob(rid, 'timeout_check:compares-request-with-armed', args[0] == f.params[1]['name'] and args[1].endswith('last_abs'), loc=cmpdef[0]['loc'],
+           detail='cmp = timespec_cmp(requested deadline, armed deadline): %s' % args, fn=f.q)
+    keeps = []
+    for (pb, pi, e) in exits_of(f):
+        v = strip(e.get('value', {}))
+        if v.get('k') == 'int' and v['v'] != 0:
+            keeps.append(e)
+    ok = bool(keeps)
+    for e in keeps:
+        A = hd.get((e['_b'], e['_i']), frozenset())
+        ok = ok and any(a[1] == cv and ((a[0] == '>=' and a[2] == '0') or (a[0] == '>' and a[2] == '-1')) for a in A)
+    ctx.ob(rid, 'timeout_check:keep-armed-only-if-not-earlier', ok, loc=keeps[0]['loc'] if keeps else f.loc,
+           detail='returning "armed, wait without deadline" without re-arming is on the edge cmp >= 0 (requested deadline not earlier than the armed one)', fn=f.q)
+    arms = [e for e in f.events() if e['ev'] == 'call' and callback_kind(e) == ('method', 'set_poll_timeout')]
+    okr = bool(arms)
+    for a in arms:
+        # its result is returned
+        rets = [e for (pb, pi, e) in exits_of(f) if e['_b'] == a['_b'] and strip(e.get('value', {})).get('k') == 'call'
+                and last_member(strip(e['value']).get('fnexpr')) == ('iv_fd_poll_method', 'set_poll_timeout')]
+        viavar = [s_ for s_ in f.events() if s_['ev'] == 'store' and strip(s_.get('rhs', {})).get('k') == 'call'
+                  and last_member(strip(s_['rhs']).get('fnexpr')) == ('iv_fd_poll_method', 'set_poll_timeout')]
+        okr = okr and (bool(rets) or any(any(canon(e.get('value', {})) == canon(s_['lhs']) for (pb, pi, e) in exits_of(f)) for s_ in viavar))
+    ctx.ob(rid, 'timeout_check:arming-result-propagated', okr, loc=arms[0]['loc'] if arms else f.loc,
+           detail='the result of method->set_poll_timeout (0 = not armed, e.g. after falling back to a method without a kernel timer) is what '
+                  'iv_fd_timeout_check returns, so the caller waits with the deadline itself', fn=f.q)
+    g = prog.fn('iv_fd_poll_and_run')
+    hdg = holding(g, user_call_kills=False)
+    polls = [e for e in g.events() if e['ev'] == 'call' and callback_kind(e) == ('method', 'poll')]
+    okp = len(polls) >= 2
+    for p_ in polls:
+        A = hdg.get((p_['_b'], p_['_i']), frozenset())
+        armed = any(a[0] == '!=' and a[2] == '0' and a[1].startswith('iv_fd_timeout_check(') for a in A)
+        dl = canon(p_['args'][2])
+        if dl in ('NULL', '0'):
+            okp = okp and armed
+        else:
+            okp = okp and dl == g.params[1]['name']
+    ctx.ob(rid, 'poll_and_run:no-deadline-only-when-armed', okp, loc=g.loc,
+           detail='method->poll is given no deadline only on the edge iv_fd_timeout_check(...) != 0; otherwise it gets the caller\'s deadline', fn=g.q)
+
+
+def rounding(ctx, rid='R-C04g'):
+    prog = ctx.prog
+    f = prog.fn('to_msec')
+    rets = [e for (pb, pi, e) in exits_of(f) if 'value' in e and any(x.get('k') == 'member' and x['field'] == 'tv_nsec' for x in walk(e['value']))]
+    if not rets:
+        raise AnalysisBroken('to_msec: conversion expression not found')
+    expr = rets[0]['value']
+    names = sorted({canon(x) for x in walk(expr) if x.get('k') == 'member' and x['field'] in ('tv_sec', 'tv_nsec')})
+    sec = [n_ for n_ in names if n_.endswith('tv_sec')][0]
+    nsec = [n_ for n_ in names if n_.endswith('tv_nsec')][0]
+    for s_, n_ in ((0, 0), (0, 1), (0, 999999), (0, 1000000), (0, 1000001), (3, 500000), (7, 999999999)):
+        try:
+            v = interp.evaluate(expr, interp.Assignment(ints={sec: s_, nsec: n_}), {})
+        except interp.Undecided as u:
+            raise AnalysisBroken('to_msec: conversion not evaluable (%s)' % u)
+        want = 1000 * s_ + (n_ + 999999) // 1000000
+        ctx.ob(rid, 'to_msec(sec=%d,nsec=%d)' % (s_, n_), v == want, loc=rets[0]['loc'],
+               detail='converted to %s ms; rounding up gives %d ms (a smaller value wakes the loop before anything is due: it spins)' % (v, want), fn=f.q)
 
 
 def expiry(ctx):
